@@ -13,15 +13,23 @@ C11 line protocol (fields separated by TAB; bytes lower-case hex; numbers decima
 `fin.rsv.opcode.mask.key.payloadhex`. `keep`: number of bytes of the client's stream that arrive.
 `delivery`: `-` or items joined by `,`: decimal `k` = the next `k` bytes arrive as one segment, `n` = a
 moment at which nothing has arrived yet; the remainder is one more segment. `ops`: `-` or joined by `,`:
-`r` recv, `n` recv_nonblocking, `p` ping, `s0<hex>` send Message::new_binary, `s1<hex>` send Message::new.
+`r` recv, `n` recv_nonblocking, `p` ping, `s0<hex>` send Message::new_binary, `s1<hex>` send Message::new;
+on RECEIVED message objects: `e` / `f` echo = recv / recv_nonblocking and, when a message came, `send` of that
+same object (one entry: result `<message>>S`, the writes of both calls), `k` / `j` recv / recv_nonblocking and
+keep the message in a queue, `q` send the oldest kept message (it leaves the queue), `c` send a clone of it (it
+stays) - result `S`, or `-` with nothing written when nothing is kept.
 `res`: `T<hex>`/`B<hex>` message, `N` nothing yet, `E:<WebsocketError>`, `S` sent, `D` dropped.
-`writes`: hex of every `write` call during the op, joined by `.`.
+`writes`: hex of every `write` call during the op, joined by `.` (a write of more than 100 000 bytes is
+`#<len>:<FNV-1a 64>`, compared with the same rendering of the frames the specification demands).
+The model has no message objects: it sends the flag and the bytes of what the MODEL received; the verdict
+sends on what `Spec.Client.recv` says was received.
 
 Run-length forms (large scripts stay small in the case line): an item of `frames`, `delivery` and `ops` may be
 `<count>*<group>`, a group being items joined by `+` (`20000*1.000.10.0.00000000.` = 20 000 empty Pongs,
 `1000*0.000.0.1.a1b2c3d4.62+1.000.9.0.00000000.` = 1 000 times fragment-then-Ping, `200000*2` = 200 000
 two-byte segments, `10002*r`). A frame's payload is hex or `g<len>s<seed>` = the `len` bytes
-`(31 i + 7 (i / 251) + seed) mod 256`. In the OUTPUT a run of two or more identical consecutive writes of
+`(31 i + 7 (i / 251) + seed) mod 256`, `t<len>s<seed>` = printable ASCII `32 + (7 i + seed) mod 95`,
+`u<len>s<seed>` = the 10 bytes of "aé€😀" repeated, starting at offset `seed mod 10`. In the OUTPUT a run of two or more identical consecutive writes of
 an op is `<count>*<hex>`, a run of identical consecutive entries `<count>*<entry>`, and a message payload
 of more than 100 000 bytes is `#<len>:<FNV-1a 64>` (both sides, and the spec's expected message, are
 rendered the same way). `ABORT` / `TIMEOUT` (the session ran in a worker process that died / did not
@@ -148,14 +156,28 @@ def payloadText (p : Bytes) : String :=
 def genPayload (len seed : Nat) : Bytes :=
   (List.range len).map (fun i => ((31 * i + 7 * (i / 251) + seed) % 256).toUInt8)
 
+/-- `t<len>s<seed>`: printable ASCII. -/
+def genAscii (len seed : Nat) : Bytes :=
+  (List.range len).map (fun i => (32 + (7 * i + seed) % 95).toUInt8)
+
+/-- The bytes of "aé€😀" (characters of 1, 2, 3 and 4 bytes). -/
+def utf8Unit : Array UInt8 := #[0x61, 0xc3, 0xa9, 0xe2, 0x82, 0xac, 0xf0, 0x9f, 0x98, 0x80]
+
+/-- `u<len>s<seed>`: `utf8Unit` repeated, starting at offset `seed mod 10`. -/
+def genUtf8 (len seed : Nat) : Bytes :=
+  (List.range len).map (fun i => utf8Unit[(i + seed) % 10]!)
+
 def payload? (s : String) : Option Bytes :=
-  if s.startsWith "g" then
+  let gen? (f : Nat → Nat → Bytes) : Option Bytes :=
     match (s.drop 1).toString.splitOn "s" with
     | [l, sd] => do
       let l ← l.toNat?
       let sd ← sd.toNat?
-      pure (genPayload l sd)
+      pure (f l sd)
     | _ => none
+  if s.startsWith "g" then gen? genPayload
+  else if s.startsWith "t" then gen? genAscii
+  else if s.startsWith "u" then gen? genUtf8
   else unhex s
 
 def frame? (s : String) : Option Frame :=
@@ -198,10 +220,22 @@ def gapsOf : List Item → Nat → Nat → List Nat
   | .notYet :: d, pos, keep => pos :: gapsOf d pos keep
   | .seg k :: d, pos, keep => gapsOf d (min (pos + k) keep) keep
 
-inductive Op | recv | recvNb | ping | send (text : Bool) (payload : Bytes)
+inductive Op
+  | recv | recvNb | ping | send (text : Bool) (payload : Bytes)
+  /-- receive (`nb`: without blocking) and send the received message back -/
+  | echo (nb : Bool)
+  /-- receive and keep the message -/
+  | keep (nb : Bool)
+  /-- send the oldest kept message; it leaves the queue -/
+  | relay
+  /-- send a clone of the oldest kept message; it stays -/
+  | again
 
 def op? (s : String) : Option Op :=
   if s == "r" then some .recv else if s == "n" then some .recvNb else if s == "p" then some .ping
+  else if s == "e" then some (.echo false) else if s == "f" then some (.echo true)
+  else if s == "k" then some (.keep false) else if s == "j" then some (.keep true)
+  else if s == "q" then some .relay else if s == "c" then some .again
   else if s.startsWith "s0" then (unhex (s.drop 2).toString).map (Op.send false)
   else if s.startsWith "s1" then (unhex (s.drop 2).toString).map (fun p => Op.send (utf8? p).isSome p)
   else none
@@ -221,45 +255,94 @@ def resultText : Result → String
   | .none => "N"
   | .outOfFuel => "OUT-OF-FUEL"
 
-def writesText (ws : List Bytes) : String := ".".intercalate (rle (ws.map hex))
+def writesText (ws : List Bytes) : String := ".".intercalate (rle (ws.map payloadText))
+
+/-- A first-in first-out queue (kept messages): front, and back newest-first. -/
+structure Fifo (α : Type) where
+  front : List α := []
+  back : List α := []
+
+def Fifo.push {α : Type} (q : Fifo α) (a : α) : Fifo α := { q with back := a :: q.back }
+
+/-- Oldest element and the queue without it. -/
+def Fifo.pop? {α : Type} (q : Fifo α) : Option (α × Fifo α) :=
+  match q.front with
+  | a :: f => some (a, { q with front := f })
+  | [] =>
+    match q.back.reverse with
+    | a :: f => some (a, { front := f, back := [] })
+    | [] => none
 
 /-- One op on the model; the text of its entry. The outbound log only ever grows at its end and is never
 read by the model, so each op is run on an empty log and what it wrote is the log afterwards (a
-connection with 10 000 earlier writes would otherwise cost 10 000 cells per call). -/
-def runOp (c : Conn) (o : Op) : String × Conn :=
+connection with 10 000 earlier writes would otherwise cost 10 000 cells per call). `held`: the messages
+(flag, bytes) the handler keeps. An echo is a receive followed by `send` of the flag and the bytes received. -/
+def runOp (c : Conn) (held : Fifo (Bool × Bytes)) (o : Op) : String × Conn × Fifo (Bool × Bytes) :=
   let c0 : Conn := { c with outbound := [] }
-  let (r, c') : String × Conn :=
+  let receive (nb : Bool) : Result × Conn := if nb then recvNonblocking c0 else recvBlocking c0
+  let (r, c', held') : String × Conn × Fifo (Bool × Bytes) :=
     match o with
-    | .recv => let p := recvBlocking c0; (resultText p.1, p.2)
-    | .recvNb => let p := recvNonblocking c0; (resultText p.1, p.2)
-    | .ping => ("S", WsMsg.ping c0)
-    | .send t p => ("S", WsMsg.send c0 t p)
-  (r ++ "/" ++ writesText c'.outbound, c')
+    | .recv => let p := receive false; (resultText p.1, p.2, held)
+    | .recvNb => let p := receive true; (resultText p.1, p.2, held)
+    | .ping => ("S", WsMsg.ping c0, held)
+    | .send t p => ("S", WsMsg.send c0 t p, held)
+    | .echo nb =>
+      let p := receive nb
+      (match p.1 with
+       | .message t pl => (resultText p.1 ++ ">S", WsMsg.send p.2 t pl, held)
+       | r => (resultText r, p.2, held))
+    | .keep nb =>
+      let p := receive nb
+      (match p.1 with
+       | .message t pl => (resultText p.1, p.2, held.push (t, pl))
+       | r => (resultText r, p.2, held))
+    | .relay =>
+      (match held.pop? with
+       | some ((t, pl), rest) => ("S", WsMsg.send c0 t pl, rest)
+       | none => ("-", c0, held))
+    | .again =>
+      (match held.pop? with
+       | some ((t, pl), rest) => ("S", WsMsg.send c0 t pl, { rest with front := (t, pl) :: rest.front })
+       | none => ("-", c0, held))
+  (r ++ "/" ++ writesText c'.outbound, c', held')
 
-def runOps : List Op → Conn → List String → String
-  | [], c, acc =>
+def runOps : List Op → Conn → Fifo (Bool × Bytes) → List String → String
+  | [], c, _, acc =>
     let c' := dropStream { c with outbound := [] }
     ";".intercalate (rle (acc.reverse ++ ["D/" ++ writesText c'.outbound]))
-  | o :: os, c, acc => let (t, c') := runOp c o; runOps os c' (t :: acc)
+  | o :: os, c, held, acc => let (t, c', held') := runOp c held o; runOps os c' held' (t :: acc)
 
 /-! ### Spec verdict on the implementation's output -/
 
-/-- `res/w1.w2` → result text and the frames the writes consist of (`none`: not frames). -/
-def entry? (s : String) : Option (String × Option (List Frame)) :=
+/-- What an op wrote, as far as the output line tells. -/
+inductive Writes
+  /-- the writes are exactly these unmasked well-formed frames -/
+  | frames (fs : List Frame)
+  /-- they do not parse as frames -/
+  | notFrames
+  /-- a write above 100 000 bytes is shown as length and hash: the text as it stands -/
+  | hashed (w : String)
+
+/-- `res/w1.w2` → result text and what was written. -/
+def entry? (s : String) : Option (String × Writes) :=
   match s.splitOn "/" with
   | [r, w] =>
-    if w.isEmpty then some (r, some [])
+    if w.isEmpty then some (r, .frames [])
+    else if w.contains '#' then some (r, .hashed w)
     else
       let items := (w.splitOn ".").map count?
       match mapM? (fun (kx : Nat × String) => (unhex kx.2).map (fun b => (kx.1, b))) items with
-      | none => some (r, none)
+      | none => some (r, .notFrames)
       | some ws =>
         -- a write that is whole frames by itself is read once, whatever its repeat count; otherwise a
         -- frame may straddle `write` calls: the writes of the op are read as one byte string
         match mapM? (fun (kb : Nat × Bytes) =>
                 (Spec.framesOf kb.2).map (fun fs => (List.replicate kb.1 fs).flatten)) ws with
-        | some fss => some (r, some fss.flatten)
-        | none => some (r, Spec.framesOf (ws.map (fun kb => (List.replicate kb.1 kb.2).flatten)).flatten)
+        | some fss => some (r, .frames fss.flatten)
+        | none =>
+          match Spec.framesOf (ws.map (fun kb => (List.replicate kb.1 kb.2).flatten)).flatten with
+          | some fs => some (r, .frames fs)
+          | none => some (r, .notFrames)
   | _ => none
 
 /-- The entries of an output line, run-length forms expanded. -/
@@ -280,42 +363,92 @@ def repliesOk : List Frame → List Frame → Bool
      else g == w) && repliesOk ws gs
   | _, _ => false
 
-/-- First failing clause, or "" when the whole session is what the specification demands. -/
-def judge : List Op → Spec.Client → Bool → List String → String
-  | [], _, closed, [e] =>
+/-- What was written is what the specification demands (`want`, one write per frame when hashed). -/
+def writesOk (want : List Frame) : Writes → Bool
+  | .frames fs => repliesOk want fs
+  | .notFrames => false
+  | .hashed w => w == writesText (want.map Spec.rfc6455Layout)
+
+/-- The frame by which a message is sent on: text or binary by the message's TYPE (RFC 6455 5.6: the opcode
+says how the receiver is to interpret the payload; whether the bytes are valid UTF-8 does not change it). -/
+def sendFrame (m : Spec.Msg) : Frame := Spec.reply (if m.text then .text else .binary) m.payload
+
+/-- The writes are `want` followed by something else than `sendFrame m`: name what is wrong with the rest. -/
+def sentWrong (want : List Frame) (m : Spec.Msg) : Writes → String
+  | .frames fs =>
+    if !repliesOk want (fs.take want.length) then "replies-before-send"
+    else match fs.drop want.length with
+      | [g] => if { g with opcode := (sendFrame m).opcode } == sendFrame m then "received-message-sent-with-other-opcode"
+               else "received-message-sent-changed"
+      | [] => "received-message-not-sent"
+      | _ => "received-message-sent-changed"
+  | _ => "received-message-sent-changed"
+
+/-- Why a receive result is not the demanded one. -/
+def recvWrong (out : Spec.Outcome) (r : String) : String :=
+  match out with
+  | .nothing => "nothing-yet-expected"
+  | .closed => "close-not-reported"
+  | .lost => "end-of-stream-not-reported"
+  | .message _ => if r == "N" then "none-although-frame-started" else "message"
+
+def repliesWrong (want : List Frame) : String :=
+  if want.any (fun f => f.opcode == .ping || f.opcode == .pong) then "ping-not-answered-by-pong"
+  else if want.any (fun f => f.opcode == .close) then "close-not-answered" else "unexpected-write"
+
+/-- First failing clause, or "" when the whole session is what the specification demands. `held`: the
+messages the handler keeps, as the SPECIFICATION says they were received. -/
+def judge : List Op → Spec.Client → Bool → Fifo Spec.Msg → List String → String
+  | [], _, closed, _, [e] =>
     match entry? e with
-    | some (r, some fs) =>
+    | some (r, .frames fs) =>
       if r != "D" then "drop-result"
       else if closed then (if fs.isEmpty then "" else "write-after-close")
       else if fs == [Spec.reply .close []] then "" else "drop-sends-close"
-    | some (_, none) => "outbound-not-frames"
+    | some (_, _) => "outbound-not-frames"
     | none => "malformed-output"
-  | [], _, _, _ => "malformed-output"
-  | _ :: _, _, _, [] => "malformed-output"
-  | o :: os, cl, closed, e :: es =>
+  | [], _, _, _, _ => "malformed-output"
+  | _ :: _, _, _, _, [] => "malformed-output"
+  | o :: os, cl, closed, held, e :: es =>
     match entry? e with
     | none => "malformed-output"
-    | some (_, none) => "outbound-not-frames"
-    | some (r, some fs) =>
+    | some (_, .notFrames) => "outbound-not-frames"
+    | some (r, w) =>
       match o with
       | .ping =>
-        if r == "S" && fs == [Spec.reply .ping []] then judge os cl closed es else "ping-op"
+        if r == "S" && writesOk [Spec.reply .ping []] w then judge os cl closed held es else "ping-op"
       | .send t p =>
-        if r == "S" && fs == [Spec.reply (if t then .text else .binary) p] then judge os cl closed es
+        if r == "S" && writesOk [Spec.reply (if t then .text else .binary) p] w then judge os cl closed held es
         else "send-op"
-      | .recv | .recvNb =>
-        let nb := match o with | .recvNb => true | _ => false
+      | .recv | .recvNb | .keep _ =>
+        let nb := match o with | .recvNb | .keep true => true | _ => false
+        let keeps := match o with | .keep _ => true | _ => false
         let (out, want, cl') := cl.recv nb
-        if r != outcomeText out then
-          (match out with
-           | .nothing => "nothing-yet-expected"
-           | .closed => "close-not-reported"
-           | .lost => "end-of-stream-not-reported"
-           | .message _ => if r == "N" then "none-although-frame-started" else "message")
-        else if !repliesOk want fs then
-          (if want.any (fun f => f.opcode == .ping || f.opcode == .pong) then "ping-not-answered-by-pong"
-           else if want.any (fun f => f.opcode == .close) then "close-not-answered" else "unexpected-write")
-        else judge os cl' (closed || out == .closed) es
+        if r != outcomeText out then recvWrong out r
+        else if !writesOk want w then repliesWrong want
+        else
+          let held' := match out with | .message m => if keeps then held.push m else held | _ => held
+          judge os cl' (closed || out == .closed) held' es
+      | .echo nb =>
+        let (out, want, cl') := cl.recv nb
+        match out with
+        | .message m =>
+          if r != outcomeText out ++ ">S" then
+            (if r.startsWith (outcomeText out ++ ">") then "send-of-received-message-failed" else recvWrong out r)
+          else if !writesOk (want ++ [sendFrame m]) w then sentWrong want m w
+          else judge os cl' closed held es
+        | _ =>
+          if r != outcomeText out then recvWrong out r
+          else if !writesOk want w then repliesWrong want
+          else judge os cl' (closed || out == .closed) held es
+      | .relay | .again =>
+        let stays := match o with | .again => true | _ => false
+        match held.pop? with
+        | none => if r == "-" && writesOk [] w then judge os cl closed held es else "relay-with-nothing-kept"
+        | some (m, rest) =>
+          if r != "S" then "send-of-received-message-failed"
+          else if !writesOk [sendFrame m] w then sentWrong [] m w
+          else judge os cl closed (if stays then { rest with front := m :: rest.front } else rest) es
 
 /-! ### Handshake -/
 
@@ -397,12 +530,12 @@ def dispatch (fn : String) (args : List String) (impl : String) : Option Verdict
     | some fs, some keep, some d, some os =>
       let bytes := (Spec.wire fs).take keep
       let c : Conn := { inbound := events d bytes }
-      let m := runOps os c []
+      let m := runOps os c {} []
       let cl : Spec.Client := ⟨fs, 0, min keep (Spec.wire fs).length, gapsOf d 0 (min keep (Spec.wire fs).length)⟩
       let why :=
         if impl == "ABORT" then "process-aborted"
         else if impl == "TIMEOUT" then "no-answer-within-watchdog"
-        else judge os cl false (entries impl)
+        else judge os cl false {} (entries impl)
       some { model := m, spec := some why.isEmpty, reason := why }
     | _, _, _, _ => some { model := "BADARGS" }
   | _, _ => none
